@@ -1,4 +1,5 @@
 import EduceModel.Spec.Default
+import EduceModel.Generated.Templates
 /-
   C08 — Default builds exactly the designated value.
 -/
@@ -256,5 +257,23 @@ def exDefOps : DefOps Nat := { exprVal := fun e => 100 + e, dflt := fun p => p.f
 example : (body {} exDefType).toOption.map (Sem.evalDefault exDefOps) = some ⟨1, [103, 1]⟩ := by decide
 example : (body {} (.enum [ { flag := true }, { flag := true } ])).toOption = none := by decide
 example : (body {} (.enum [ {}, {} ])).toOption = none := by decide
+
+
+/-! ## What the generated code calls
+
+The absolute paths (`::core::..`) named by the `quote!` templates of the handler, regenerated from /repo/src on every run
+(`vtool extract`): the functions, traits and types the generated code can reach are exactly these - a call of anything
+else (`::core::ptr::eq`, `::core::fmt::Display::fmt`, `::core::convert::From::from`, ...) is a change of what the
+implementation does and has to be looked at. -/
+
+theorem generated_calls_unchanged_default :
+    Generated.paths_trait_handlers_default =
+      ["::core::default::Default"] := by
+  decide +kernel
+
+theorem generated_calls_unchanged_common :
+    Generated.paths_common =
+      ["::core::convert::Into::into"] := by
+  decide +kernel
 
 end Educe
